@@ -310,6 +310,8 @@ func c15Run(raw json.RawMessage, c *mc.Ctx) {
 						cls = " table stones"
 					}
 					c15RunCase(c, sp, c15Case{Hor: hor, GW: 99}, cls, fmt.Sprintf("texture %s density class %d Corg %g stones %d%%", sp.Tex, bd, corg, stone))
+					// ... and under a table that enters the profile and leaves it again (the parameters are recomputed on every change)
+					c15RunCase(c, sp, c15Case{Hor: hor, GW: 99, LWord: []float64{25, 4, 2.5, 25, 4}}, cls+" moving-table", fmt.Sprintf("texture %s density class %d Corg %g stones %d%% levels [25 4 2.5 25 4]", sp.Tex, bd, corg, stone))
 				}
 			}
 		}
@@ -319,6 +321,9 @@ func c15Run(raw json.RawMessage, c *mc.Ctx) {
 				for _, tex := range []string{"SL3", "LT3"} {
 					hor := []proj.Horizon{{Tex: tex, Lower: 4, BD: 3, Corg: 1, CN: 10, FC: fc, WP: sp.WP, PS: ps}}
 					c15RunCase(c, sp, c15Case{Hor: hor, GW: 99}, " explicit", fmt.Sprintf("explicit WP=%d FC=%d PS=%d texture %s", sp.WP, fc, ps, tex))
+					if tex == "SL3" {
+						c15RunCase(c, sp, c15Case{Hor: hor, GW: 99, LWord: []float64{25, 2, 25, 2}}, " explicit moving-table", fmt.Sprintf("explicit WP=%d FC=%d PS=%d texture %s levels [25 2 25 2]", sp.WP, fc, ps, tex))
+					}
 				}
 			}
 		}
@@ -337,6 +342,9 @@ func c15Run(raw json.RawMessage, c *mc.Ctx) {
 				// four functions yield on the grid - 70.05 % for 83 % clay with 6 % carbon - so that the input is consistent)
 				hor := []proj.Horizon{{Tex: tex, Lower: 4, BD: 3, Corg: corg, CN: 10, PS: 78, Sand: sp.Sand, Silt: silt, Clay: clay}}
 				c15RunCase(c, sp, c15Case{Hor: hor, PTF: sp.PTF, GW: 99}, fmt.Sprintf(" ptf%d", sp.PTF), fmt.Sprintf("PTF %d sand %d silt %d clay %d Corg %g", sp.PTF, sp.Sand, silt, clay, corg))
+				if (silt+sp.Sand)%4 == 0 {
+					c15RunCase(c, sp, c15Case{Hor: hor, PTF: sp.PTF, GW: 99, LWord: []float64{25, 2, 25, 2}}, fmt.Sprintf(" ptf%d moving-table", sp.PTF), fmt.Sprintf("PTF %d sand %d silt %d clay %d Corg %g levels [25 2 25 2]", sp.PTF, sp.Sand, silt, clay, corg))
+				}
 			}
 		}
 	case "gw":
